@@ -37,6 +37,7 @@ type DCfg struct {
 	Jitter          int64
 	JitterFactor    float32
 	MaxDuration     int64
+	Order           int // order in which the independent builder option groups are applied (0..23)
 }
 
 func (c DCfg) Gallina() string {
@@ -46,36 +47,54 @@ func (c DCfg) Gallina() string {
 
 func (c DCfg) Build(tbl [][2]int64, maxRetries int, onSched func(failsafe.ExecutionScheduledEvent[int])) retrypolicy.RetryPolicy[int] {
 	b := retrypolicy.Builder[int]().WithMaxRetries(maxRetries)
-	switch {
-	case c.MaxDelay != 0:
-		if c.Factor == 2 {
-			b = b.WithBackoff(time.Duration(c.Delay), time.Duration(c.MaxDelay))
-		} else {
-			b = b.WithBackoffFactor(time.Duration(c.Delay), time.Duration(c.MaxDelay), c.Factor)
-		}
-	case c.Delay != 0:
-		b = b.WithDelay(time.Duration(c.Delay))
-	case c.Min != 0:
-		b = b.WithRandomDelay(time.Duration(c.Min), time.Duration(c.Max))
-	}
-	if c.Jitter != 0 {
-		b = b.WithJitter(time.Duration(c.Jitter))
-	}
-	if c.JitterFactor != 0 {
-		b = b.WithJitterFactor(c.JitterFactor)
-	}
-	if c.MaxDuration != 0 {
-		b = b.WithMaxDuration(time.Duration(c.MaxDuration))
-	}
-	if len(tbl) > 0 {
-		b = b.WithDelayFunc(func(e failsafe.ExecutionAttempt[int]) time.Duration {
-			for _, p := range tbl {
-				if int64(e.Attempts()) == p[0] {
-					return time.Duration(p[1])
+	// the independent option groups commute: they are applied in an order chosen by the generator
+	groups := []func(){
+		func() {
+			switch {
+			case c.MaxDelay != 0:
+				if c.Factor == 2 {
+					b = b.WithBackoff(time.Duration(c.Delay), time.Duration(c.MaxDelay))
+				} else {
+					b = b.WithBackoffFactor(time.Duration(c.Delay), time.Duration(c.MaxDelay), c.Factor)
 				}
+			case c.Delay != 0:
+				b = b.WithDelay(time.Duration(c.Delay))
+			case c.Min != 0:
+				b = b.WithRandomDelay(time.Duration(c.Min), time.Duration(c.Max))
 			}
-			return -1
-		})
+		},
+		func() {
+			if c.Jitter != 0 {
+				b = b.WithJitter(time.Duration(c.Jitter))
+			}
+			if c.JitterFactor != 0 {
+				b = b.WithJitterFactor(c.JitterFactor)
+			}
+		},
+		func() {
+			if c.MaxDuration != 0 {
+				b = b.WithMaxDuration(time.Duration(c.MaxDuration))
+			}
+		},
+		func() {
+			if len(tbl) > 0 {
+				b = b.WithDelayFunc(func(e failsafe.ExecutionAttempt[int]) time.Duration {
+					for _, p := range tbl {
+						if int64(e.Attempts()) == p[0] {
+							return time.Duration(p[1])
+						}
+					}
+					return -1
+				})
+			}
+		},
+	}
+	ord := c.Order
+	for n := len(groups); n > 0; n-- {
+		k := ord % n
+		ord /= n
+		groups[k]()
+		groups = append(groups[:k], groups[k+1:]...)
 	}
 	return b.OnRetryScheduled(onSched).Build()
 }
@@ -151,7 +170,7 @@ func TestDrive_C13(t *testing.T) {
 	}
 	for i := 0; i < nSeq; i++ {
 		mag := Pick(rng, magnitudes)
-		c := DCfg{Factor: 2}
+		c := DCfg{Factor: 2, Order: rng.Intn(24)}
 		kind := Pick(rng, []string{"fixed", "backoff", "backoff", "backoff", "random", "none"})
 		switch kind {
 		case "fixed":
